@@ -162,4 +162,48 @@ def mergeWrites : List (FsOpOf Unit) → List (FsOpOf Unit)
   | o :: r => o :: mergeWrites r
   | [] => []
 
+/-! ### the StateManager's own `save_state` -/
+
+/-- `StateManager.save_state(path)` (since /repo b1898a0): `Path(path).parent.mkdir(exist_ok=True)`, then the temp-file
+    sequence with `temp = Path(path).with_name(Path(path).name + ".temp")` — the sampler's naming — and `os.rename(temp, path)` -/
+def smSave (dir final : Path) (payload : Bytes) : List FsOp :=
+  [.mkdir dir, .openTrunc (tmpOf final), .write (tmpOf final) payload, .flush (tmpOf final),
+   .fsync (tmpOf final), .close (tmpOf final), .rename (tmpOf final) final]
+
+/-- a path as pathlib splits it: `dir` = everything up to and including the last `/` (possibly empty),
+    `stem` and `suffix` of the last component (`suffix` = "" or the part from the last dot of the name, when
+    that dot is neither its first nor its last character) -/
+structure PName where
+  dir : String
+  stem : String
+  suffix : String
+  deriving DecidableEq, Repr
+
+def PName.path (n : PName) : Path := n.dir ++ n.stem ++ n.suffix
+
+/-- `Path(path).with_suffix(s)` -/
+def PName.withSuffix (n : PName) (s : String) : Path := n.dir ++ n.stem ++ s
+
+/-- MODEL OF THE PRE-FIX CODE (before /repo b1898a0; kept for the witness F27 and for the driver when the old shape is
+    seen again): the temporary name REPLACED the suffix, `temp = Path(path).with_suffix(".temp")` -/
+def smSaveOld (n : PName) (payload : Bytes) : List FsOp :=
+  [.mkdir n.dir, .openTrunc (n.withSuffix ".temp"), .write (n.withSuffix ".temp") payload, .flush (n.withSuffix ".temp"),
+   .fsync (n.withSuffix ".temp"), .close (n.withSuffix ".temp"), .rename (n.withSuffix ".temp") n.path]
+
+/-! ### turning a statically extracted shape (symbolic paths "dir" / "tmp" / "final", no payload) into a program -/
+
+def substPath (dir tmp final : Path) (p : Path) : Path :=
+  if p = "dir" then dir else if p = "tmp" then tmp else if p = "final" then final else p
+
+/-- every `write` of the shape carries the whole payload (the shape has one `write` per `dump`) -/
+def instantiate (dir tmp final : Path) (payload : Bytes) : List (FsOpOf Unit) → List FsOp
+  | [] => []
+  | .mkdir p :: r => .mkdir (substPath dir tmp final p) :: instantiate dir tmp final payload r
+  | .openTrunc p :: r => .openTrunc (substPath dir tmp final p) :: instantiate dir tmp final payload r
+  | .write p _ :: r => .write (substPath dir tmp final p) payload :: instantiate dir tmp final payload r
+  | .flush p :: r => .flush (substPath dir tmp final p) :: instantiate dir tmp final payload r
+  | .fsync p :: r => .fsync (substPath dir tmp final p) :: instantiate dir tmp final payload r
+  | .close p :: r => .close (substPath dir tmp final p) :: instantiate dir tmp final payload r
+  | .rename p q :: r => .rename (substPath dir tmp final p) (substPath dir tmp final q) :: instantiate dir tmp final payload r
+
 end Model.FS
